@@ -27,6 +27,11 @@ def run_property(prop, tier='quick', root=REPO_ROOT, overlay=None, verbose=False
     cfgmod.clear_cache()
     valmod.clear_cache()
     repo = Repo(root=root, overlay=overlay)
+    from . import roles, model as modelmod
+    aliases = roles.discover_aliases(repo)
+    valmod.set_aliases(aliases)
+    modelmod.ALIASES.clear()
+    modelmod.ALIASES.update(aliases)
     cg = CallGraph(repo)
     errors = []
     for p in verify_field_table(repo):
